@@ -66,6 +66,8 @@ impl ChannelParser {
     /// Returns Some(T) if the type is a Channel, None otherwise
     fn extract_channel_message_type(&self, ty: &Type) -> Option<String> {
         match ty {
+            // (Channel<T>) is Channel<T>
+            Type::Paren(paren) => self.extract_channel_message_type(&paren.elem),
             Type::Path(type_path) => {
                 // Get the last segment of the path (e.g., "Channel" from "tauri::ipc::Channel")
                 let last_segment = type_path.path.segments.last()?;
